@@ -42,6 +42,31 @@ Proof.
   rewrite orb_true_r. rewrite group_go_true. reflexivity.
 Qed.
 
+(* without require_tsig the signature flag of a message is irrelevant *)
+Lemma step_nosig : forall s r, req_tsig s = false -> step LastNoSig s r = step Last s r.
+Proof.
+  intros s r H. unfold step. cbn [req_tsig set_delmode]. rewrite H. reflexivity.
+Qed.
+
+Lemma step_req_tsig : forall (fl : flag) s r s' o, step fl s r = (s', o) -> req_tsig s' = req_tsig s.
+Proof.
+  intros fl s r s' o H. unfold step, res_of in H.
+  repeat match type of H with
+         | context [if ?b then _ else _] => destruct b eqn:?
+         | context [match ?x with _ => _ end] => destruct x eqn:?
+         end; inversion H; subst; reflexivity.
+Qed.
+
+Lemma loopT_nosig : forall rs s sg, req_tsig s = false -> loopT sg s rs = loop s rs.
+Proof.
+  induction rs as [|r rest IH]; intros s sg H; cbn [loopT]; [reflexivity|].
+  assert (E : step (match rest with [] => (if sg then Last else LastNoSig) | _ :: _ => Mid end) s r =
+              step (match rest with [] => Last | _ :: _ => Mid end) s r).
+  { destruct rest; [|reflexivity]. destruct sg; [reflexivity|apply step_nosig, H]. }
+  rewrite E. destruct (step (match rest with [] => Last | _ :: _ => Mid end) s r) as [s1 [e|]] eqn:Hs; [reflexivity|].
+  apply IH. rewrite (step_req_tsig _ _ _ _ _ Hs). exact H.
+Qed.
+
 Lemma header_ok_question : forall rdt w, header_ok rdt w ->
   (match w_question w with
    | (qn, qt) :: _ => if negb (qn =? origin) then Some eQName else if negb (qt =? rdt) then Some eQType else None
@@ -52,10 +77,10 @@ Proof.
   rewrite !Z.eqb_refl. reflexivity.
 Qed.
 
-Lemma init_ixfr : forall z ser udp, init z tIXFR (Some ser) udp = inl (ixfr_init z ser udp).
+Lemma init_ixfr : forall z ser udp, init_t false z tIXFR (Some ser) udp = inl (ixfr_init z ser udp).
 Proof. reflexivity. Qed.
 
-Lemma init_axfr : forall z ser, init z tAXFR ser false = inl (axfr_init z ser).
+Lemma init_axfr : forall z ser, init_t false z tAXFR ser false = inl (axfr_init z ser).
 Proof. reflexivity. Qed.
 
 (* The first message of an IXFR whose first record is the apex SOA r0 *)
@@ -80,8 +105,9 @@ Proof.
   destruct Hh as [Hrc Hq]. rewrite Hrc. cbn [Z.eqb negb].
   rewrite (header_ok_question tIXFR w (conj Hrc Hq)).
   rewrite Hr, group_true. cbn [map].
-  cbn -[loop serial_lt two32 single]. cbn [single s_name s_type s_data].
-  rewrite Hn, Ht. cbn -[loop serial_lt two32 single].
+  cbn -[loopT serial_lt two32 single]. cbn [single s_name s_type s_data].
+  rewrite Hn, Ht. cbn -[loopT serial_lt two32 single].
+  rewrite !(loopT_nosig _ _ (w_tsig w)) by reflexivity.
   change (soa_serial (single r0)) with (Some (r_data r0 mod two32)). cbv iota beta.
   destruct (r_data r0 mod two32 =? ser); [reflexivity|].
   destruct (serial_lt (r_data r0 mod two32) ser); [reflexivity|].
@@ -95,7 +121,7 @@ Theorem serial_backwards_rejected : forall z ser udp w ws r0 rest,
   inbound_xfr z tIXFR (Some ser) udp (w :: ws) = (Error eBackwards z, 0%nat).
 Proof.
   intros z ser udp w ws r0 rest Hh Hr Ha Hlt.
-  unfold inbound_xfr. rewrite init_ixfr. cbn [Z.eqb tIXFR Pos.eqb drive].
+  unfold inbound_xfr, xfr_run. rewrite init_ixfr. cbn [Z.eqb tIXFR Pos.eqb drive].
   rewrite (first_message_ixfr z ser udp w r0 rest Hh Hr Ha). cbv zeta.
   destruct (r_data r0 mod two32 =? ser) eqn:He.
   - apply Z.eqb_eq in He. rewrite He, serial_lt_irrefl in Hlt. discriminate.
@@ -109,7 +135,7 @@ Theorem uptodate_noop : forall z ser udp w ws r0,
   inbound_xfr z tIXFR (Some ser) udp (w :: ws) = (Done z, 1%nat).
 Proof.
   intros z ser udp w ws r0 Hh Hr Ha He.
-  unfold inbound_xfr. rewrite init_ixfr. cbn [Z.eqb tIXFR Pos.eqb drive].
+  unfold inbound_xfr, xfr_run. rewrite init_ixfr. cbn [Z.eqb tIXFR Pos.eqb drive].
   rewrite (first_message_ixfr z ser udp w r0 [] Hh Hr Ha). cbv zeta.
   rewrite He, Z.eqb_refl. cbn. rewrite andb_false_r. reflexivity.
 Qed.
@@ -121,7 +147,7 @@ Theorem use_tcp_signalled : forall z ser w ws r0,
   inbound_xfr z tIXFR (Some ser) true (w :: ws) = (Error eUseTCP z, 0%nat).
 Proof.
   intros z ser w ws r0 Hh Hr Ha Hne Hlt.
-  unfold inbound_xfr. rewrite init_ixfr. cbn [Z.eqb tIXFR Pos.eqb drive].
+  unfold inbound_xfr, xfr_run. rewrite init_ixfr. cbn [Z.eqb tIXFR Pos.eqb drive].
   rewrite (first_message_ixfr z ser true w r0 [] Hh Hr Ha). cbv zeta.
   apply Z.eqb_neq in Hne. rewrite Hne, Hlt. reflexivity.
 Qed.
